@@ -5,7 +5,7 @@ sys.path.insert(0,'/verif/tools'); sys.path.insert(0,'/verif')
 import gen_code_selftest as T
 from harness import core, gen_code
 real = open(os.path.join(core.LEAN,"MofunModel","Generated","Code.lean")).read()
-ALL = "C17 C19 C18 C09 C14 C10 C02 C20 C11 C03 C12 C13 C15 C16".split()
+ALL = "C17 C19 C18 C09 C14 C10 C02 C20 C11 C03 C12 C13 C15 C16 C01".split()
 for d in sorted(glob.glob("/verif/seeded/*")):
     pf = os.path.join(d,"patch.diff")
     if not os.path.exists(pf): continue
